@@ -8,6 +8,8 @@
 #include <stdlib.h>
 #include <string.h>
 #include <stdint.h>
+#include <unistd.h>
+#include <sys/syscall.h>
 #include "uv.h"
 
 #define WATCHDOG_NS ((uint64_t) 4000 * 1000 * 1000)
@@ -15,12 +17,16 @@
 /* ---- a gate: wait until a counter reaches a target, or the watchdog expires ---- */
 static uv_mutex_t gm; static uv_cond_t gc;
 static int gate_failed, any_failed;
-static int gate_wait(volatile int* counter, int target) {   /* gm held */
+static int gate_wait_ns(volatile int* counter, int target, uint64_t limit);
+static int gate_wait(volatile int* counter, int target) { return gate_wait_ns(counter, target, WATCHDOG_NS); }
+/* for threads that stay inside a section until told to leave: outlast the prober's watchdog */
+static int gate_hold(volatile int* counter, int target) { return gate_wait_ns(counter, target, 3 * WATCHDOG_NS); }
+static int gate_wait_ns(volatile int* counter, int target, uint64_t WATCHDOG) {   /* gm held */
   uint64_t t0 = uv_hrtime();
-  while (*counter < target && !gate_failed) {
+  while (*counter < target && (!gate_failed || WATCHDOG != WATCHDOG_NS)) {
     uint64_t now = uv_hrtime();
-    if (now - t0 >= WATCHDOG_NS) { gate_failed = 1; any_failed = 1; uv_cond_broadcast(&gc); break; }
-    uv_cond_timedwait(&gc, &gm, WATCHDOG_NS - (now - t0));
+    if (now - t0 >= WATCHDOG) { gate_failed = 1; any_failed = 1; uv_cond_broadcast(&gc); break; }
+    uv_cond_timedwait(&gc, &gm, WATCHDOG - (now - t0));
   }
   return *counter >= target;
 }
@@ -38,7 +44,7 @@ static void reader(void* arg) {
   if (rd_inside == NR) rd_met = 1;           /* all readers inside at the same time */
   uv_cond_broadcast(&gc);
   gate_wait(&rd_met, 1);
-  gate_wait(&rd_release, 1);                 /* stay inside until main has probed */
+  gate_hold(&rd_release, 1);                 /* stay inside until main has probed */
   rd_inside--;
   uv_mutex_unlock(&gm);
   uv_rwlock_rdunlock(&rw);
@@ -80,6 +86,75 @@ static void rwlock_test(void) {
   uv_thread_join(&w);
   printf("readers_inside_at_once=%d trywr_with_readers=%d tryrd_with_readers=%d tryrd_with_writer=%d ",
          rd_max, rd_trywr, rd_tryrd, wr_tryrd);
+}
+
+/* ---- rwlock with a writer queued: readers are still admitted ----
+ * R1 inside; W blocks in uv_rwlock_wrlock (we wait until the kernel reports it asleep);
+ * then uv_rwlock_tryrdlock (R2) must succeed and a blocking uv_rwlock_rdlock (R3) must get in
+ * while R1 is still inside; then all readers leave and W gets in alone. */
+static uv_rwlock_t qrw;
+static volatile int q_r1_in, q_release, q_w_tid, q_w_in, q_w_alone = -1, q_r3_in, q_readers;
+static void q_reader1(void* arg) {
+  (void) arg;
+  uv_rwlock_rdlock(&qrw);
+  uv_mutex_lock(&gm); q_readers++; q_r1_in = 1; uv_cond_broadcast(&gc);
+  gate_hold(&q_release, 1);
+  q_readers--; uv_mutex_unlock(&gm);
+  uv_rwlock_rdunlock(&qrw);
+}
+static void q_writer(void* arg) {
+  (void) arg;
+  __atomic_store_n(&q_w_tid, (int) syscall(SYS_gettid), __ATOMIC_SEQ_CST);
+  uv_rwlock_wrlock(&qrw);
+  uv_mutex_lock(&gm); q_w_alone = (q_readers == 0); q_w_in = 1; uv_cond_broadcast(&gc); uv_mutex_unlock(&gm);
+  uv_rwlock_wrunlock(&qrw);
+}
+static void q_reader3(void* arg) {
+  (void) arg;
+  uv_rwlock_rdlock(&qrw);
+  uv_mutex_lock(&gm); q_readers++; q_r3_in = 1; uv_cond_broadcast(&gc);
+  gate_hold(&q_release, 1);
+  q_readers--; uv_mutex_unlock(&gm);
+  uv_rwlock_rdunlock(&qrw);
+}
+/* 1 when /proc says the thread sleeps in the kernel (state S), 0 not yet, -1 unreadable */
+static int thread_asleep(int tid) {
+  char path[64], buf[512]; FILE* f; char* p;
+  snprintf(path, sizeof path, "/proc/self/task/%d/stat", tid);
+  f = fopen(path, "r");
+  if (!f) return -1;
+  if (!fgets(buf, sizeof buf, f)) { fclose(f); return -1; }
+  fclose(f);
+  p = strrchr(buf, ')');
+  if (!p || p[1] != ' ') return -1;
+  return p[2] == 'S';
+}
+static void rwlock_queued_writer_test(void) {
+  uv_thread_t r1, w, r3; int tryrd = 99, asleep = 0, r3_joined, r1_still; uint64_t t0;
+  uv_rwlock_init(&qrw);
+  uv_thread_create(&r1, q_reader1, NULL);
+  uv_mutex_lock(&gm); gate_wait(&q_r1_in, 1); uv_mutex_unlock(&gm);
+  uv_thread_create(&w, q_writer, NULL);
+  t0 = uv_hrtime();
+  while (uv_hrtime() - t0 < WATCHDOG_NS) {           /* until W is blocked inside uv_rwlock_wrlock */
+    int tid = __atomic_load_n(&q_w_tid, __ATOMIC_SEQ_CST);
+    int st = tid ? thread_asleep(tid) : 0;
+    if (st == 1) { asleep = 1; break; }
+    if (st < 0) { uv_sleep(50); asleep = 2; break; }  /* /proc unreadable: give it 50 ms instead */
+    uv_sleep(1);
+  }
+  tryrd = uv_rwlock_tryrdlock(&qrw);                  /* R2 */
+  uv_thread_create(&r3, q_reader3, NULL);              /* R3: blocking read lock */
+  uv_mutex_lock(&gm);
+  r3_joined = gate_wait(&q_r3_in, 1);
+  r1_still = q_r1_in && q_readers >= (r3_joined ? 2 : 1) && !q_w_in;
+  q_release = 1; uv_cond_broadcast(&gc);
+  uv_mutex_unlock(&gm);
+  if (tryrd == 0) uv_rwlock_rdunlock(&qrw);
+  uv_thread_join(&r1); uv_thread_join(&r3); uv_thread_join(&w);
+  printf("writer_queued_asleep=%d tryrd_with_writer_queued=%d rdlock_joins_reader_with_writer_queued=%d,%d "
+         "queued_writer_got_in_alone=%d ", asleep ? 1 : 0, tryrd, r3_joined, r1_still, q_w_alone);
+  uv_rwlock_destroy(&qrw);
 }
 
 /* ---- mutex: N threads never overlap ---- */
@@ -237,6 +312,7 @@ static void cond_test(int bcast) {
 int main(void) {
   uv_mutex_init(&gm); uv_cond_init(&gc);
   rwlock_test(); gate_failed = 0;
+  rwlock_queued_writer_test(); gate_failed = 0;
   mutex_test();
   sem_test(); gate_failed = 0;
   once_test();
